@@ -14,6 +14,7 @@ raised?) are decided here, in-process, and logged as facts.
 """
 import asyncio
 import faulthandler
+import functools
 import gc
 import json
 import os
@@ -477,6 +478,27 @@ async def run_async(world, pspec, args, kwargs):
                 with trio.CancelScope(shield=True):
                     await trio.sleep(cleanup["dur"])
                 LOG("cleanup-done", pid=pid, gen=world.gen, how="shielded")
+            if cleanup["kind"] == "absorb":
+                # a stubborn worker: it treats a cancellation as an interrupted step and goes back to waiting;
+                # only after `times` further cancellations does it give up
+                absorbed = 0
+                while absorbed < cleanup["times"]:
+                    try:
+                        await lib.sleep(3600)
+                    except cancel_exc:
+                        absorbed += 1
+                        LOG("cancelled-again", pid=pid, gen=world.gen, n=absorbed)
+                LOG("cleanup-done", pid=pid, gen=world.gen, how="absorb")
+            if cleanup["kind"] == "async" and flavour == "asyncio":
+                # a finally block that awaits a few (zero-length) steps
+                began, step = time.monotonic(), 0
+                try:
+                    for step in range(cleanup["steps"]):
+                        await asyncio.sleep(0)
+                except cancel_exc:
+                    LOG("cleanup-interrupted", pid=pid, gen=world.gen, after=round(time.monotonic() - began, 4), step=step)
+                    raise
+                LOG("cleanup-done", pid=pid, gen=world.gen, how="async", took=round(time.monotonic() - began, 4))
             raise
         finally:
             if cleanup["kind"] == "sync":
@@ -553,7 +575,50 @@ def make_payload(world, pspec):
         async def payload(*args, **kwargs):
             return await run_async(world, pspec, args, kwargs)
     payload.__name__ = payload.__qualname__ = "payload_%s" % pspec["id"]
-    return payload
+    return dress(payload, pspec.get("callable", "function"))
+
+
+def dress(inner, how):
+    """The same payload as another kind of callable: what matters is what calling it gives."""
+    if how == "function":
+        return inner
+    if how == "lambda":
+        return lambda *args, **kwargs: inner(*args, **kwargs)
+    if how == "wrapped":
+        @functools.wraps(inner)
+        def wrapper(*args, **kwargs):  # a plain function handing out the coroutine / the result of the inner one
+            return inner(*args, **kwargs)
+
+        return wrapper
+    if how == "partial":
+        return functools.partial(inner)
+    coroutine = asyncio.iscoroutinefunction(inner)
+
+    class Job:
+        if coroutine:
+            async def __call__(self, *args, **kwargs):
+                return await inner(*args, **kwargs)
+
+            async def work(self, *args, **kwargs):
+                return await inner(*args, **kwargs)
+        else:
+            def __call__(self, *args, **kwargs):
+                return inner(*args, **kwargs)
+
+            def work(self, *args, **kwargs):
+                return inner(*args, **kwargs)
+
+        def __repr__(self):
+            return "<Job %s>" % inner.__name__
+
+    if how == "object":
+        return Job()
+    if how == "method":
+        return Job().work
+    raise AssertionError("unknown kind of callable %r" % (how,))
+
+
+CALLABLE_KINDS = ["function", "lambda", "wrapped", "partial", "object", "method"]
 
 
 # ------------------------------------------------------------------------------ driver thread
@@ -652,12 +717,26 @@ def run_generation(gen_spec, index):
     world = WORLD = World(gen_spec, index)
     PREVIOUS_RUNNER[0] = world.runner
     LOG("generation", gen=index, reused_runner=bool(gen_spec.get("reuse_runner")))
-    for p in gen_spec.get("payloads", []):
-        if p.get("when") == "queued":
-            do_adopt(world, p["id"], by="main-before-accept")
-    for s in gen_spec.get("services", []):
-        if s.get("create") == "before":
-            do_service(world, s["id"], by="main-before-accept")
+    early = [(do_adopt, p["id"]) for p in gen_spec.get("payloads", []) if p.get("when") == "queued"]
+    early += [(do_service, s["id"]) for s in gen_spec.get("services", []) if s.get("create") == "before"]
+    k = gen_spec.get("prestart_threads", 0)
+    if k and early:
+        # several threads register their payloads at the same time before the runtime exists
+        barrier = threading.Barrier(k)
+
+        def submit(mine, name):
+            barrier.wait()
+            for fn, pid in mine:
+                fn(world, pid, by=name)
+
+        helpers = [threading.Thread(target=submit, args=(early[i::k], "prestart-%d" % i), daemon=True) for i in range(k)]
+        for t in helpers:
+            t.start()
+        for t in helpers:
+            t.join()
+    else:
+        for fn, pid in early:
+            fn(world, pid, by="main-before-accept")
     if gen_spec.get("ticker"):
         # a plain harness thread ticking every 10 ms: tells a starved machine from a stalled event loop
         def tick():
